@@ -137,7 +137,37 @@ func (f *frame) libCall(callee *ssa.Function, c *ssa.CallCommon, base string, re
 		r := f.resultHavoc(base, resT)
 		f.assume(fmt.Sprintf("(and (bvsle #x0000000000000000 %s) (bvsle %s (bvadd (slen %s) #x0000000000000001)))", r.term, r.term, arg(0)))
 		return r
-	case "strings.HasPrefix", "strings.HasSuffix", "strings.Contains", "strings.ContainsRune", "strings.ContainsAny", "strings.EqualFold":
+	case "strings.ContainsRune":
+		if cs, ok := c.Args[0].(*ssa.Const); ok && cs.Value != nil {
+			lit := constant.StringVal(cs.Value)
+			ascii := true
+			for _, r := range lit {
+				if r >= 0x80 {
+					ascii = false
+				}
+			}
+			if ascii {
+				used("ContainsRune reports whether the Unicode code point r is within s (s constant ASCII: a finite disjunction)")
+				var ds []string
+				for _, r := range lit {
+					ds = append(ds, fmt.Sprintf("(= %s %s)", arg(1), bvLit(int64(r), 32)))
+				}
+				return ret(or(ds...))
+			}
+		}
+		used("pure predicate on strings (result not modelled)")
+		return f.resultHavoc(base, resT)
+	case "math.Pow":
+		used("Pow special cases used: Pow(x, ±0) = 1 for any x; Pow(1, y) = 1 for any y; Pow(x, NaN) = NaN for x != 1; Pow(NaN, y) = NaN for y != 0; otherwise unconstrained")
+		x, y := arg(0), arg(1)
+		r := f.resultHavoc(base, resT)
+		one := fpLit(1, "Float64")
+		f.assume(fmt.Sprintf("(=> (fp.isZero %s) (= %s %s))", y, r.term, one))
+		f.assume(fmt.Sprintf("(=> (fp.eq %s %s) (= %s %s))", x, one, r.term, one))
+		f.assume(fmt.Sprintf("(=> (and (fp.isNaN %s) (not (fp.eq %s %s))) (fp.isNaN %s))", y, x, one, r.term))
+		f.assume(fmt.Sprintf("(=> (and (fp.isNaN %s) (not (fp.isZero %s))) (fp.isNaN %s))", x, y, r.term))
+		return r
+	case "strings.HasPrefix", "strings.HasSuffix", "strings.Contains", "strings.ContainsAny", "strings.EqualFold":
 		used("pure predicate on strings (result not modelled)")
 		r := f.resultHavoc(base, resT)
 		if callee.Name() == "HasPrefix" || callee.Name() == "HasSuffix" {
